@@ -88,19 +88,33 @@ theorem exportSpikeDepths_length_fallback (fe : Option Feats) (ys : List Rat) (p
     (hno : getDepths fe ys st = none) : (exportSpikeDepths fe ys peaks st sc).length = sc.length := by
   simp [exportSpikeDepths, hno, spikeDepthsFromClusters]
 
-theorem durations_eq (wfs : List Mat) (rate : Rat) (sc : List Nat) (ns nc : Nat) (hns : 0 < ns)
+theorem contains_modelNanIdx (st sc : List Nat) (hlen : st.length = sc.length) (c : Nat)
+    (hc : sc ≠ st → c ≤ sc.foldl max 0) :
+    (modelNanIdx st sc).contains c = (decide (sc ≠ st) && !decide (c ∈ sc)) := by
+  unfold modelNanIdx
+  by_cases h : sc = st
+  · simp [h]
+  · have hs := C08.Lemmas.nanIdx_spec st sc hlen c
+    by_cases hm : c ∈ sc
+    · have : ¬ c ∈ C08.nanIdx (C08.mergeMap st sc) := fun hx => (hs.1 hx).2 hm
+      simp [h, hm, this]
+    · have : c ∈ C08.nanIdx (C08.mergeMap st sc) := hs.2 ⟨hc h, hm⟩
+      simp [h, hm, this]
+
+theorem durations_eq (wfs : List Mat) (rate : Rat) (st sc : List Nat) (hlen : st.length = sc.length)
+    (hn : sc ≠ st → wfs.length = sc.foldl max 0 + 1) (ns nc : Nat) (hns : 0 < ns)
     (hnc : 0 < nc) (hrect : ∀ W ∈ wfs, Rect W ns nc) (c : Nat) (hc : c < wfs.length) (p iM im : Nat)
     (hp : IsPeakChannel (wfs.getD c []) nc p) (hM : IsFirstMax (chan (wfs.getD c []) p) iM)
     (hm : IsFirstMin (chan (wfs.getD c []) p) im) :
-    (exportDurations wfs rate sc).getD c none =
-      if c ∈ sc then some ((((iM : Int) - (im : Int) : Int) : Rat) * 1000 / rate) else none := by
+    (exportDurations wfs rate st sc).getD c none =
+      if sc ≠ st ∧ c ∉ sc then none else some ((((iM : Int) - (im : Int) : Int) : Rat) * 1000 / rate) := by
   unfold exportDurations
   rw [Lemmas.peakToTrough_eq wfs rate _ ns nc hns hnc hrect c hc p iM im hp hM hm,
-    contains_spikelessIds _ sc c hc]
-  by_cases h : c ∈ sc <;> simp [h]
+    contains_modelNanIdx st sc hlen c (fun h => by have := hn h; omega)]
+  by_cases h : sc = st <;> by_cases h2 : c ∈ sc <;> simp [h, h2]
 
-theorem exportDurations_length (wfs : List Mat) (rate : Rat) (sc : List Nat) :
-    (exportDurations wfs rate sc).length = wfs.length :=
+theorem exportDurations_length (wfs : List Mat) (rate : Rat) (st sc : List Nat) :
+    (exportDurations wfs rate st sc).length = wfs.length :=
   Lemmas.exportPeakToTrough_length wfs rate _
 
 end PhyVerif.C14.Lemmas
